@@ -1639,7 +1639,8 @@ func (c *DnsController) __updateDnsCacheDeadline(cacheKey string, host string, d
 	}
 
 	now := time.Now()
-	deadline, originalDeadline := deadlineFunc(now, host)
+	// Domain names are case-insensitive: look the fixed TTL up by the lower-cased name.
+	deadline, originalDeadline := deadlineFunc(now, strings.ToLower(host))
 
 	if cacheKey == "" {
 		cacheKey = c.cacheKey(fqdn, dnsTyp)
